@@ -21,7 +21,7 @@ CLAIMED = {
    note="Go gives no control over instruction-level interleaving: inside a parallel step of mode R the overlap is real and the verdict is the race detector's happens-before analysis; mode R replays are statistical (sync.Pool drops items randomly under -race), mode D replays are exact."),
  "C05": dict(engine="fault", cat="fault_enumeration", ref="§5.4, §6 C05",
    technique="deterministic simulation with fault injection: enumeration of truncations / substitutions / token edits / random bytes of documents parsed from guard-paged simulator memory; large cases under seeded pipeline schedules (deadlock = no runnable token)",
-   text="Fault enumeration over stored documents: every truncation offset and a substitution alphabet at every offset for small bases (exhaustive per base), boundary-biased faults for large ones, adversarial nesting and dense structurals; each case must return (result xor error) without panic, without touching the guard pages around the input, without a stuck stage (sync-path full-channel monitor, pipeline schedules with deadlock/leak detection) and every traversal/lookup/marshal call on a result must terminate within its step cap.",
+   text="Fault enumeration over stored documents: every truncation offset and a substitution alphabet at every offset for small bases (exhaustive per base), boundary-biased faults for large ones, adversarial nesting and dense structurals; each case must return (result xor error) without panic, without touching the guard pages around the input, without a stuck stage (sync-path full-channel monitor, pipeline schedules with deadlock/leak detection) and every traversal/lookup/marshal call on a result must terminate within its step cap. Results the parser returned must also be traversable (the structural walks and MarshalJSON get through; the Elements of the top-level object marshal twice alike), and a reused object's string buffer is placed against a guard page so that a store past its capacity faults.",
    note="Trusted: guard pages only catch page-crossing reads (inputs are placed flush against the guard); walkers' step caps define 'terminates'; crashes on library goroutines are caught by the parent process and replayed in a fresh child."),
  "C09": dict(engine="stream", cat="exploration", ref="§5.2, §6 C09",
    technique="deterministic simulation: real ParseNDStream in a synctest bubble with a simulated reader (seeded fragmentation, zero reads, data+EOF, injected reader errors), seeded chunk-parser completion order, consumer and recycler; history oracles; a quarter of the workers run the -race build with a pre-drawn read plan",
@@ -57,7 +57,7 @@ CLAIMED = {
    note="Coverage of input shapes is whatever the workloads generate; the invariant checker is written from README/property text."),
  "C19": dict(engine="fault", cat="fault_enumeration", ref="§5.4, §6 C19",
    technique="deterministic fault injection on stored bytes: exhaustive truncations / single-bit flips / byte substitutions of small blobs in all four modes, framing-aware tag/value/varint/block-type edits via an independent framing walker (decompress-mutate-recompress), synthetic tag streams, splices, random bytes, double faults; a call that does not return is judged as a bubble deadlock",
-   text="Fault enumeration over serialized blobs: for every base blob one fault plan is run to completion (every truncation length, every single-bit flip, or a substitution alphabet at every offset for small blobs; framing-aware edits that keep the container intact; section splices of two blobs; random bytes; sampled double faults). Deserialize (fresh or stale reused destination, any reader mode) must return error or result without panic, and every traversal/marshal/lookup/bulk accessor on a result must terminate without panic.",
+   text="Fault enumeration over serialized blobs: for every base blob one fault plan is run to completion (every truncation length, every single-bit flip, or a substitution alphabet at every offset for small blobs; framing-aware edits that keep the container intact; section splices of two blobs; random bytes; sampled double faults; synthetic tag streams whose float-with-flags entries carry raw tape words). Deserialize (fresh or stale reused destination, any reader mode) must return error or result without panic, and every traversal/marshal/bulk accessor on a result - including a model-free lookup walk (FindKey/FindPath/Elements.Lookup through reused destinations in every object) and ForEach+AdvanceIter to the end of each root - must terminate without panic. Replay files carry the literal blob and, for a reused destination, the blobs it received before.",
    note="Blobs whose declared sizes (container varints, zstd frame content/window size) exceed 16 MiB are excluded by the independent framing walker, as the property allows, and counted."),
 
  "C07": dict(engine="pipe", cat="exploration", ref="§5.1, §6 C07",
